@@ -36,7 +36,7 @@ conf = {}
 for lg in LOGS:
     if os.path.exists(lg):
         for line in open(lg):
-            m = re.match(r"(C\d\d) ([AB]) (.*)", line.strip())
+            m = re.match(r"(C\d\d) ([ABCD]) (.*)", line.strip())
             if m:
                 conf[(m.group(1), m.group(2))] = m.group(3)
 done = []
